@@ -28,11 +28,11 @@ REQUIRED = ["eval:idc_star", "C08:estimands-evaluated", "C08:estimands-correct",
 TIMEOUT = {"quick": 900, "thorough": 7200}
 
 
-def run_case(ctx, gd, out, cond, cls):
+def run_case(ctx, gd, out, cond, cls, g=None):
     from y0.algorithm.identify import idc_star
     from y0.dsl import Zero
 
-    g = gg.to_nx(gd)
+    g = gg.to_nx(gd) if g is None else g
     kernel.LOG.reset_case({"graph": gd, "outcomes": out, "conditions": cond})
     res = None
     try:
@@ -87,6 +87,17 @@ def run_shard(ctx):
                 continue
         classes[cls] = classes.get(cls, 0) + 1
         run_case(ctx, gd, out, cond, cls)
+    for _ in range(ctx.share({"quick": 300, "thorough": 6000}[ctx.tier])):
+        gd = gg.random_admg(rng, rng.choice([2, 3, 3, 4]))
+        g = gg.to_nx(gd)
+        for _s in range(5):
+            for _q in range(2):
+                sp = split_event(rng, gd)
+                if sp is not None:
+                    classes["history:" + sp[2]] = classes.get("history:" + sp[2], 0) + 1
+                    run_case(ctx, gd, sp[0], sp[1], sp[2], g=g)
+            if len(gd["nodes"]) < 5:
+                gd = gg.edit_inplace(g, gd, rng)
     ctx.extras["event_classes"] = classes
 
 
